@@ -29,8 +29,14 @@ DOCS = [
     "@misc{u1, title = {ünicöde élève}, author = {Müller, Jürgen}}\n",
     "@misc{g1, title = {中文标题}, author = {王 小明}}\r\n@comment{注释}\r\n",
     "@misc{z9, b = {2}, a = {1}, C = {3}}\n@article{a0, month = {December}, author = \"A and B and C\"}\nfree text\n@string{zz = {1}}\n",
+    # edge characters at the very start / end of the decoded content: parse_file must hand them to parse_string untouched
+    "\ufeff@article{bom, a = {b}}\n@comment{after a byte order mark}\n",
+    "\ufeff% comment right after a BOM\n@misc{bom2, t = {x}}",
+    "\n\n  \t@misc{lead, t = {x}}  \n\n\x0c\n",
+    "\x00@misc{nul, t = {a\x00b}}\n\x1a",
+    "@misc{noeol, t = {x}}",
 ]
-DOC_ENC = {7: ["utf-8", "latin-1", "utf-16"], 8: ["utf-8", "gbk", "utf-16"]}
+DOC_ENC = {7: ["utf-8", "latin-1", "utf-16"], 8: ["utf-8", "gbk", "utf-16"], 10: ["utf-8", "utf-16"], 11: ["utf-8", "utf-16"]}
 ENCODINGS = ["utf-8", "latin-1", "gbk", "utf-16"]
 
 SHIPPED = [
